@@ -135,8 +135,11 @@ pub fn run(ctx: &mut Ctx) {
                 items_request = outcome.items_request;
             }
             let dev = dev_opt.as_mut().unwrap(); let rdr = rdr_opt.as_mut().unwrap();
+            // one round in five: the holder declines altogether (no document in the response); later rounds must be unaffected
+            let declined = n_rounds > 1 && round + 1 < n_rounds && rng.gen_bool(0.35);
+            if declined { permitted.clear(); }
             // device: prepare with the permission, sign with the issued device key, respond
-            let perm: PermittedItems = [(MDL.to_string(), permitted.iter().map(|(ns, es)| (ns.clone(), es.clone())).collect())].into_iter().collect();
+            let perm: PermittedItems = if declined { PermittedItems::new() } else { [(MDL.to_string(), permitted.iter().map(|(ns, es)| (ns.clone(), es.clone())).collect())].into_iter().collect() };
             device::SessionManager::prepare_response(dev, &items_request, perm);
             let mut n_docs = 0;
             while let Some((_, payload)) = dev.get_next_signature_payload() { let sig: Signature = device_key.sign(payload); dev.submit_next_signature(sig.to_bytes().to_vec()).unwrap(); n_docs += 1; if n_docs > 5 { break; } }
@@ -156,6 +159,10 @@ pub fn run(ctx: &mut Ctx) {
             ctx.emit.line("spec", "spec:reported-exactly", format!("spec.c01.elems {rs} {ps} {hs} {os}"), "true".into(), case2.clone());
             ctx.emit.line("spec", "spec:issued-values", format!("spec.eq {} true", values_ok), "true".into(), case2.clone());
             let errs: Vec<String> = out.errors.keys().cloned().collect();
+            if declined {
+                ctx.emit.line("spec", "spec:declined-round", format!("spec.eq decrypts={},reported={} decrypts=true,reported=0", !errs.iter().any(|e| e == "decryption_errors"), reported.values().map(|s| s.len()).sum::<usize>()), "true".into(), case2.clone());
+                continue;
+            }
             let expect_issuer = if with_anchor { "Valid" } else { "Invalid" };
             ctx.emit.line("spec", if with_anchor { "spec:both-valid" } else { "spec:untrusted-root" }, format!("spec.eq issuer={},device={},errors={} issuer={expect_issuer},device=Valid,errors={}", crate::auth::status_str(&out.issuer_authentication), crate::auth::status_str(&out.device_authentication),
                 if errs.is_empty() { "-".into() } else { errs.join("+") }, if with_anchor { "-" } else { "certificate_errors" }), "true".into(), case2.clone());
